@@ -658,18 +658,27 @@ func (f *FeaturesByID) FindAreasByPoint(id b6.FeatureID) b6.AreaFeatures {
 					var p FullPoint
 					p.Unmarshal(&fb.Namespaces, t.Data)
 					paths = p.Paths
+				case PointTagReferencesOnly:
+					// The point itself is stored in another index
+					var r PointReferences
+					r.Unmarshal(&fb.Namespaces, t.Data)
+					paths = r.Paths
 				}
 			}
-			areas := make(map[Reference]struct{})
+			// Namespaces are compared decoded, since each index has
+			// its own namespace table.
+			areas := make(map[b6.FeatureID]struct{})
 			var p Path
 			for _, path := range paths {
+				_, ns := path.TypeAndNamespace.Split()
+				pathNamespace := fb.NamespaceTable.Decode(ns)
 				for _, pm := range f.features[b6.FeatureTypePath] {
-					_, ns := path.TypeAndNamespace.Split()
-					if pm.Namespaces[b6.FeatureTypePath] == ns {
+					if ns, ok := pm.NamespaceTable.MaybeEncode(pathNamespace); ok && pm.Namespaces[b6.FeatureTypePath] == ns {
 						if b := pm.Map.FindFirstWithTag(path.Value, encoding.NoTag); len(b) > 0 {
 							p.Unmarshal(&pm.Namespaces, b)
 							for _, area := range p.Areas {
-								areas[area] = struct{}{}
+								_, ns := area.TypeAndNamespace.Split()
+								areas[b6.FeatureID{Type: b6.FeatureTypeArea, Namespace: pm.NamespaceTable.Decode(ns), Value: area.Value}] = struct{}{}
 							}
 							break
 						}
@@ -678,8 +687,7 @@ func (f *FeaturesByID) FindAreasByPoint(id b6.FeatureID) b6.AreaFeatures {
 			}
 			for area := range areas {
 				for _, am := range f.features[b6.FeatureTypeArea] {
-					_, ns := area.TypeAndNamespace.Split()
-					if am.Namespaces[b6.FeatureTypeArea] == ns {
+					if ns, ok := am.NamespaceTable.MaybeEncode(area.Namespace); ok && am.Namespaces[b6.FeatureTypeArea] == ns {
 						if a := f.newArea(am, area.Value); a != nil {
 							features = append(features, a)
 							break
